@@ -60,6 +60,9 @@ fn one_trial(c: &PaceCase) -> Result<Trial, String> {
     let port = TestPort::with_state(state);
     let h = port.handle();
     let mut bus = SerialSignBus::try_new(port).map_err(|e| format!("try_new failed: {e}"))?;
+    // the calling thread may carry a pending wake-up token from earlier (thread::park/unpark users do);
+    // pacing must not depend on it
+    std::thread::current().unpark();
     let r1 = catch(|| bus.process_message(c.msg.to_message()).map(|_| ()).map_err(|e| e.to_string())).map_err(|p| format!("panic: {p}"))?;
     let returned = Instant::now();
     r1.map_err(|e| format!("process_message({}) failed on a cooperative port: {e}", c.msg.short()))?;
@@ -183,6 +186,7 @@ pub fn check_train(c: &TrainCase, st: &mut Stats) -> Result<(), String> {
     let port = TestPort::with_state(state);
     let h = port.handle();
     let mut bus = SerialSignBus::try_new(port).map_err(|e| format!("try_new failed: {e}"))?;
+    std::thread::current().unpark(); // a pending wake-up token must not shorten the pacing
     // per step: (index of first write call, index one past the last write call, one past the last read call, return time)
     let mut marks: Vec<(usize, usize, usize, Instant)> = vec![];
     for (i, (m, _)) in c.steps.iter().enumerate() {
